@@ -30,9 +30,38 @@ Rules interpreted:
   ``cancel`` of a fired Deferred that is waiting on another cancels that other
   one and otherwise does nothing.
 
+* (optional, scenarios whose callbacks operate on the pool from inside) a
+  callback may first perform *actions* - ``pause`` / ``unpause`` of any Deferred
+  of the pool, its own included, ``fire`` of a Deferred that has no result yet,
+  ``add`` of a callback pair to any Deferred - and then behaves as above.  Such
+  an action is the ordinary operation issued at that moment: an ``unpause`` that
+  brings a fired Deferred to zero, a ``fire``, an ``add`` to a fired unpaused
+  Deferred process that Deferred's list right there, nested inside the running
+  callback.  The one exception is the documented "callbacks
+  are never run recursively": while a callback of D is executing, nothing else
+  of D's list is processed (a nested request to process D returns at once; D
+  goes on when the callback has returned).  A value returned by a callback is
+  what the callback returned, whatever happened to D's stored result meanwhile
+  (``echo`` returns the callback's own argument).
+  The documentation of ``pause`` ("cease calling any methods as they are added,
+  and do not respond to callback, until unpause() is called") does not say what
+  happens to entries that are ALREADY queued when the count of a Deferred is
+  raised in the middle of one processing pass of that very Deferred and the pass
+  would otherwise go on (the Deferred is not waiting and has entries left; one
+  that started to wait meanwhile simply stops, as always).
+  With ``midpass_undetermined=True`` the interpreter raises ``Undetermined`` at
+  that point - the caller must give no verdict from there on; with the default
+  it stops the pass there (callers whose callbacks never pause never get there).
+
 Results are abstract: ("V", payload) | ("F", tag) | ("D", name-of-deferred).
 Callback behaviours are small tuples interpreted by ``behave``:
-  ("value", x) | ("raise", tag) | ("failure", tag) | ("echo",) | ("deferred", name)
+  ("value", x) | ("raise", tag, ...) | ("failure", tag) | ("echo",) | ("deferred", name)
+A callback spec is (cid, behaviour) or (cid, behaviour, actions) with
+actions = (("pause", name) | ("unpause", name) | ("fire", name, result) |
+("add", name, cbspec|None, ebspec|None), ...); an ``unpause`` action is only
+carried out while the program holds a pause of its own on the target
+(``MD.upaused`` counts them), a ``fire`` action only while the target has not
+been fired.
 """
 
 CANCELLED = ("F", "CancelledError")
@@ -47,6 +76,10 @@ class CancellerRaised(Exception):
     pass
 
 
+class Undetermined(Exception):
+    """The documented rules do not determine what happens next (see module text)."""
+
+
 class MD:
     """One Deferred record."""
 
@@ -55,6 +88,8 @@ class MD:
         self.called = False
         self.result = None          # abstract result once called
         self.paused = 0
+        self.upaused = 0            # pauses issued by the program itself and not yet matched by its unpause
+        self.running = False        # one of this Deferred's callbacks is executing right now
         self.cbs = []               # ("pair", cbspec|None, ebspec|None) | ("cont", MD)
         self.waiting_on = None      # MD this one waits for
         self.canceller = canceller  # None | "noop" | ("callback", payload) | ("errback", tag) | "raise"
@@ -83,10 +118,11 @@ class MD:
 class Interp:
     """spec = (cid, behaviour).  ``log`` receives (deferred name, cid, input)."""
 
-    def __init__(self):
+    def __init__(self, midpass_undetermined=False):
         self.ds = {}
         self.log = []
         self.notes = []   # per-operation notes for probes / witness classification
+        self.midpass_undetermined = midpass_undetermined
 
     def new(self, name, canceller=None):
         d = self.ds[name] = MD(name, canceller)
@@ -106,9 +142,11 @@ class Interp:
 
     def pause(self, d):
         d.paused += 1
+        d.upaused += 1
 
     def unpause(self, d):
         d.paused -= 1
+        d.upaused -= 1
         if d.paused == 0 and d.called:
             self._run(d)
 
@@ -140,7 +178,17 @@ class Interp:
 
     # -- the interpreter proper
     def _run(self, d):
-        while d.paused == 0 and d.cbs:
+        if d.running:
+            return  # never recursively: d goes on by itself when the executing callback has returned
+        first = True
+        while d.cbs:
+            if d.paused:
+                if not first and self.midpass_undetermined and d.waiting_on is None:
+                    # count raised in the middle of this pass, entries left, not waiting
+                    self.notes.append(("undetermined", d.name))
+                    raise Undetermined(d.name)
+                return
+            first = False
             e = d.cbs.pop(0)
             if e[0] == "cont":
                 o = e[1]
@@ -153,15 +201,39 @@ class Interp:
             spec = e[2] if d.result[0] == "F" else e[1]
             if spec is None:
                 continue  # pass-through side
-            cid, beh = spec
-            self.log.append((d.name, cid, d.result))
+            cid, beh = spec[0], spec[1]
+            arg = d.result
+            self.log.append((d.name, cid, arg))
+            if len(spec) > 2 and spec[2]:
+                d.running = True
+                try:
+                    for a in spec[2]:
+                        act, t = a[0], self.ds[a[1]]
+                        if act == "pause":
+                            self.notes.append(("inner-pause", d.name, t.name))
+                            self.pause(t)
+                        elif act == "unpause":
+                            if t.upaused > 0:
+                                self.notes.append(("inner-unpause", d.name, t.name))
+                                self.unpause(t)
+                        elif act == "fire":
+                            if not t.called:
+                                self.notes.append(("inner-fire", d.name, t.name))
+                                self.fire(t, a[2])
+                        elif act == "add":
+                            self.notes.append(("inner-add", d.name, t.name))
+                            self.add(t, a[2], a[3])
+                        else:
+                            raise ValueError(act)
+                finally:
+                    d.running = False
             kind = beh[0]
             if kind == "value":
                 d.result = ("V", beh[1])
             elif kind in ("raise", "failure"):
                 d.result = ("F", beh[1])
             elif kind == "echo":
-                pass
+                d.result = arg
             elif kind == "deferred":
                 j = self.ds[beh[1]]
                 if j.called and j.paused == 0 and j.waiting_on is None:
